@@ -1,6 +1,6 @@
 (* C01/Props.v — property-level theorems of C01 over the Cluster model (coq/theories/Cluster/Model.v). *)
 From Coq Require Import List ZArith Bool Lia.
-From BLB Require Import Gen.Consts C01.Model Cluster.Proofs Cluster.Frame Cluster.Inv C01.Witness.
+From BLB Require Import Gen.Consts C01.Model Cluster.Proofs Cluster.Frame Cluster.Inv Cluster.Window Cluster.Attempts C01.Witness.
 Import ListNotations.
 Open Scope Z_scope.
 
@@ -28,6 +28,25 @@ Proof.
   repeat split; auto. destruct (seg_of (o_off o) (o_len o) (k_tract rp)); cbn in *; congruence.
 Qed.
 Print Assumptions c01_client_rpc_in_own_range.
+
+(* [FULL] c01_failed_write_confined_run - run level form of the failed write clause - in every reachable state every write record held by any replica is exactly the part lying in that replica's tract of a write attempt that was started on that replica's blob so whatever its outcome and whatever repairs crashes lost or duplicated replies and leader changes happen a write can only ever show up inside its own range of its own blob on any server *)
+Theorem c01_failed_write_confined_run :
+  forall evs ts b j r wr,
+    let st := run_state init_state evs in
+    rget (s_reps st) (ts, (b, j)) = Some r -> In wr (r_app r) ->
+    exists W, In (b, w_id wr, W) (s_att st) /\ seg_of (w_off W) (w_len W) j = (w_off wr, w_len wr).
+Proof. exact records_are_attempt_parts. Qed.
+Print Assumptions c01_failed_write_confined_run.
+
+(* [FULL] c01_unwritten_reads_zero - the never written part of c01_acked_write_visible - in every reachable state a byte that no write attempt on the blob ever covered reads as zero on every replica of its tract whichever replica answers *)
+Theorem c01_unwritten_reads_zero :
+  forall evs ts b j r p,
+    let st := run_state init_state evs in
+    rget (s_reps st) (ts, (b, j)) = Some r ->
+    newest_cover (s_att st) b (j * TL + p) = None ->
+    byte_at (r_app r) p = 0.
+Proof. exact unwritten_reads_zero. Qed.
+Print Assumptions c01_unwritten_reads_zero.
 
 (* [REFUTED] c01_acked_write_visible - on the model that is faithful to the current code there is a run with no complaint of the model about any client in which a durable host at the durable version does not show an acknowledged write with no newer attempt on that byte - the witness is the directed schedule d1 replayed on the real code on every run of the check which is finding F21 *)
 Theorem c01_acked_write_visible_refuted :
@@ -57,6 +76,25 @@ Theorem bumped_is_frozen :
                     = s_reps st).
 Proof. exact bumped_is_frozen_reachable. Qed.
 Print Assumptions bumped_is_frozen.
+
+(* [FULL] durable_versions_monotone - from every reachable state and along every continuation of the run a durable tract record never disappears and its version never decreases and with commit_is_unique_per_version each commit raises it by exactly one *)
+Theorem durable_versions_monotone :
+  forall evs2 evs1 tk dv hs,
+    let st := run_state init_state evs1 in
+    tget (s_dtr st) tk = Some (dv, hs) ->
+    exists dv' hs', tget (s_dtr (run_state st evs2)) tk = Some (dv', hs') /\ dv <= dv'.
+Proof. exact durable_monotone. Qed.
+Print Assumptions durable_versions_monotone.
+
+(* [PARTIAL] host_version_window upper half - in every state reachable by a schedule that contains no injected probe RPC which is event 17 and exists only to test the tractserver's own rules no replica of a durable tract is more than one version ahead of the durable record and a replica of a tract that is not durable yet is at version 1 at most and this holds with lost and duplicated replies restarts crashes during a pull leader changes and stragglers. Missing for the full window are presence and the lower bound for durable hosts which fail in the F21 case *)
+Theorem host_version_window_upper_partial :
+  forall evs ts tk r,
+    no_inject evs ->
+    let st := run_state init_state evs in
+    rget (s_reps st) (ts, tk) = Some r ->
+    match tget (s_dtr st) tk with Some (dv, _) => r_ver r <= dv + 1 | None => r_ver r <= 1 end.
+Proof. exact replica_at_most_one_ahead. Qed.
+Print Assumptions host_version_window_upper_partial.
 
 (* [PARTIAL] host_version_window at the Store - SetVersion never lowers a version never changes content and raises the version by at most one namely to the requested value and after a successful reply the version is at least the requested one *)
 Theorem setversion_window_partial :
